@@ -125,7 +125,7 @@ class Gen:
                     while kinds[str(t)][1] == "Unknown":
                         t = r.choice(pool)
             else:
-                t = r.choice([601, 999, 5000, 32000, 32767])
+                t = r.choice([601, 999, 5000, 32000, 32767] + ([0x8008, 0x8015, 0x8004, 0xFFFF, 40000] if proto == "v9" else []))
             kind = kinds.get(str(t), ["", "Unknown"])[1]
             if not unknown and kind == "Unknown":
                 continue
@@ -323,7 +323,14 @@ def conformant_session(g, npk=8, unknown=True, multi_tmpl=True, parsers=("A", "B
             for _ in range(r.choice([1, 1, 2, 3, 4])):
                 known = list(e.tm.keys())
                 mm = r.random()
-                if mm < 0.4 or not known:
+                if known and mm < 0.08:
+                    # periodic template refresh: the same definition(s) sent again verbatim
+                    tids = r.sample(known, min(len(known), r.choice([1, 1, 2]) if multi_tmpl else 1))
+                    kinds_ = {e.tm[t][0] for t in tids}
+                    if len(kinds_) > 1:
+                        tids = tids[:1]
+                    sets.append(e.tmpl_set(tids))
+                elif mm < 0.4 or not known:
                     n = r.choice([1, 1, 1, 2, 3]) if multi_tmpl else 1
                     tids = r.sample(e.ids, min(n, len(e.ids)))
                     kind = "data" if r.random() < 0.75 else "opts"
@@ -408,9 +415,12 @@ def mutate_session(g, npk=10):
         if o["op"] != "call":
             continue
         if r.random() < 0.65:
-            ops.append(call(o["p"], mutate_bytes(g, o["buf"])))
+            o2 = call(o["p"], mutate_bytes(g, o["buf"]))
         else:
-            ops.append(o)
+            o2 = dict(o)
+        if r.random() < 0.1:
+            o2["op"] = "flat"        # the flattened common view of buffers that contain errors (C13)
+        ops.append(o2)
     return ops
 
 
